@@ -83,7 +83,7 @@ fn c17_idf_textbook() {
     kani::cover!(df + 1 < n);
 }
 
-// @unit class=bounded tier=thorough mem=light bound="n,df<=31 (symbolic)" timeout=1200 fns=linfa_preprocessing::tf_idf_vectorization::TfIdfMethod::compute_idf
+// @unit class=bounded tier=quick mem=light bound="n,df<=31 (symbolic)" timeout=1200 fns=linfa_preprocessing::tf_idf_vectorization::TfIdfMethod::compute_idf
 #[kani::proof]
 #[kani::stub(alloc::fmt::format, fmt_stub)]
 #[kani::stub(f64::ln, ghost_ln64)]
@@ -99,7 +99,7 @@ fn c17_idf_quot_smooth() {
     kani::cover!(n == df);
 }
 
-// @unit class=bounded tier=thorough mem=light bound="n,df<=31 (symbolic)" timeout=1200 fns=linfa_preprocessing::tf_idf_vectorization::TfIdfMethod::compute_idf
+// @unit class=bounded tier=quick mem=light bound="n,df<=31 (symbolic)" timeout=1200 fns=linfa_preprocessing::tf_idf_vectorization::TfIdfMethod::compute_idf
 #[kani::proof]
 #[kani::stub(alloc::fmt::format, fmt_stub)]
 #[kani::stub(f64::ln, ghost_ln64)]
@@ -116,7 +116,7 @@ fn c17_idf_quot_nonsmooth() {
     kani::cover!(df == 0);
 }
 
-// @unit class=bounded tier=thorough mem=light bound="n,df<=31 (symbolic)" timeout=1200 fns=linfa_preprocessing::tf_idf_vectorization::TfIdfMethod::compute_idf
+// @unit class=bounded tier=quick mem=light bound="n,df<=31 (symbolic)" timeout=1200 fns=linfa_preprocessing::tf_idf_vectorization::TfIdfMethod::compute_idf
 #[kani::proof]
 #[kani::stub(alloc::fmt::format, fmt_stub)]
 #[kani::stub(f64::ln, ghost_ln64)]
